@@ -53,9 +53,14 @@ func runC12(seed uint64, n int, tier string, outDir string) []*Stats {
 	pctRefCases(r, cf, st)
 	boxModelCases(r, n+n/2, cf, st)
 	radiusModelCases(r, n, cf, st)
-	nestCases(r, n, cf, st)
-	nestExpandCases(r, n/2, cf, st)
-	nestSemCases(r, n, cf, st)
+	// the nesting families are evaluated by vm_compute over whole selector trees / element sets: bounded volume
+	nn := n
+	if nn > 600 {
+		nn = 600
+	}
+	nestCases(r, nn, cf, st)
+	nestExpandCases(r, nn/2, cf, st)
+	nestSemCases(r, nn, cf, st)
 	mangleCases(r, n/2, cf, st)
 	glueTransform(r, n/2, st, cf)
 	glueBoxFamilies(r, n/2+20, st)
